@@ -2269,7 +2269,29 @@ fn eval_int_binop(
                 ));
             }
 
-            Value::new(Value_::Int(lhs_num / rhs_num))
+            match lhs_num.checked_div(rhs_num) {
+                Some(num) => Value::new(Value_::Int(num)),
+                None => {
+                    // The only remaining case is the smallest integer
+                    // divided by -1, whose result doesn't fit in an Int.
+                    return Err((
+                        RestoreValues(vec![lhs_value.clone(), rhs_value.clone()]),
+                        EvalError::Exception(ExceptionInfo {
+                            position: position.clone(),
+                            message: ErrorMessage(vec![Text(format!(
+                                "Tried to divide {} by {}, but the result is too large for an Int.",
+                                lhs_value.display(env),
+                                rhs_value.display(env)
+                            ))]),
+                        }),
+                    ));
+                }
+            }
+        }
+        // The remainder always fits in an Int, so only a zero divisor
+        // is an error (`wrapping_rem_euclid` gives 0 for MIN % -1).
+        BinaryOperatorKind::Modulo if rhs_num != 0 => {
+            Value::new(Value_::Int(lhs_num.wrapping_rem_euclid(rhs_num)))
         }
         BinaryOperatorKind::Modulo => match lhs_num.checked_rem_euclid(rhs_num) {
             Some(num) => Value::new(Value_::Int(num)),
